@@ -17,7 +17,7 @@ from harness import detsched
 logging.disable(logging.CRITICAL)
 REPO = os.environ.get("VERIF_REPO", "/repo")
 NW = 4
-STEP_CAP = 4000
+STEP_CAP = 1500
 
 STUTTER = {"thread_join", "ret", "cond_wait", "qget_nowait_empty", "fut_is_set", "fut_wait",
            "obs_done", "obs_result", "other_unlock"}
@@ -283,7 +283,7 @@ def random_trace(seed, maxmax=2, ntasks=3, nclients=1, observer=True):
         S.spawn(lambda: R.observe(rnd, rnd.randint(0, 6)), "observer", 200)
     p_timeout = rnd.choice([0.0, 0.05, 0.3])
     end = "quiescent"
-    idle = 0                      # consecutive forced time-outs while nothing else was enabled
+    idle = 0                      # time-outs fired since a client or a task body last made a step
     while True:
         live = S.live()
         if not live:
@@ -291,19 +291,19 @@ def random_trace(seed, maxmax=2, ntasks=3, nclients=1, observer=True):
             break
         en = [t for t in live if S.is_enabled(t)]
         tm = [t for t in live if not S.is_enabled(t) and t.can_timeout]
-        if en and not (tm and rnd.random() < p_timeout):
+        may_tmo = tm and idle < 2 * len(tm) + 2
+        if en and not (may_tmo and rnd.random() < p_timeout):
             t, tmo = rnd.choice(en), False
-            idle = 0
-        elif tm and (en or idle < 2 * len(tm) + 2):
+        elif may_tmo:
             t, tmo = rnd.choice(tm), True
-            if not en:
-                idle += 1
+            idle += 1
         elif en:
             t, tmo = rnd.choice(en), False
-            idle = 0
         else:
             end = "quiescent"
             break
+        if not tmo and (t.idx >= 100 or t.op[0] in ("enter", "body")):
+            idle = 0
         if S.steps > STEP_CAP:
             end = "truncated"
             break
